@@ -128,6 +128,14 @@ Lemma project_twice_defect pl p :
        (vscale ROps (plane_sd ROps pl p * (1 - vnorm2 ROps (pnormal pl))) (pnormal pl)).
 Proof. rewrite (project_moves_along_normal pl (plane_project ROps pl p)), project_sd_defect. reflexivity. Qed.
 
+Lemma canonical_sd_defect pl :
+  plane_sd ROps pl (canonical_point ROps pl) = vdot ROps (pref pl) (pnormal pl) * (vnorm2 ROps (pnormal pl) - 1).
+Proof. destruct pl as [[rx ry rz] [a b c]]. punf. ring. Qed.
+Lemma mirror_twice_defect pl p :
+  plane_mirror ROps pl (plane_mirror ROps pl p) =
+  vadd ROps p (vscale ROps (4 * plane_sd ROps pl p * (vnorm2 ROps (pnormal pl) - 1)) (pnormal pl)).
+Proof. destruct pl as [[rx ry rz] [a b c]], p as [x y z]. punf. apply V3_ext; ring. Qed.
+
 Lemma project_idempotent pl p : unit_normal pl ->
   plane_project ROps pl (plane_project ROps pl p) = plane_project ROps pl p.
 Proof.
